@@ -3,7 +3,7 @@
 Executes straight-line code with if/elif/isinstance/is over symbolic heap objects.  Each object
 has a kind (a repo class), operand fields (_child_, left, right) and a graph parent (the edge
 stored in its rustworkx node).  The `_parent_` property is *inlined from source* (getter: graph
-parent, as `_eval_parent_` is unset while a rule tree is being written; setter: interpreted
+parent or the parent the last evaluation installed, exactly as the source says; setter: interpreted
 statement by statement); constructors of binary selectors use a summary that is itself checked
 against the source of BinaryOperator.__post_init__ / _update_children_.
 """
@@ -25,6 +25,7 @@ class Obj:
         self.kind = kind  # class qual
         self.f: Dict[str, Any] = {"_child_": None}
         self.gparent: Optional["Obj"] = None
+        self.eparent: Optional["Obj"] = None  # _eval_parent_: what the last evaluation installed (None on a never evaluated tree)
 
     def __repr__(self):
         return self.name
@@ -78,9 +79,8 @@ class Heap:
         cp = self.se.methods.get("_current_parent_")
         if cp is None or "_symbolic_expression_stack_[-1]" not in src(cp.node):
             raise AnalysisError("surgery: _current_parent_ no longer returns the top of the expression stack")
-        g = self.se.methods.get("_parent_")
-        if g is None or "_eval_parent_" not in src(g.node) or "self._node_.parent" not in src(g.node):
-            raise AnalysisError("surgery: _parent_ getter changed shape")
+        if self.se.methods.get("_parent_") is None:
+            raise AnalysisError("surgery: _parent_ getter vanished")
 
     def new(self, name, kind) -> Obj:
         o = Obj(name, kind)
@@ -105,6 +105,7 @@ class Interp:
         self.setter = self.prog.lookup_setter(heap.se.qual, "_parent_")
         if self.setter is None:
             raise AnalysisError("surgery: _parent_ setter vanished")
+        self.getter = heap.se.methods.get("_parent_")
 
     def isinstance_(self, v, clsexpr, mod) -> bool:
         if not isinstance(v, Obj):
@@ -176,7 +177,15 @@ class Interp:
     def getattr_(self, b, attr):
         if isinstance(b, Obj):
             if attr == "_parent_":
-                return b.gparent  # getter inlined: _eval_parent_ is unset while the tree is written
+                # property getter, interpreted from source
+                env = {self.getter.params[0]: b}
+                try:
+                    self.block(self.getter.node.body, env, self.getter.module)
+                except _Ret as r_:
+                    return r_.v
+                return None
+            if attr == "_eval_parent_":
+                return b.eparent
             if attr == "_node_":
                 return NodeRef(b)
             if attr in ("left", "right", "_child_"):
@@ -187,6 +196,8 @@ class Interp:
         if isinstance(b, NodeRef):
             if attr == "parent":
                 return NodeRef(b.owner.gparent) if b.owner.gparent is not None else None
+            if attr == "data":
+                return b.owner
             if attr == "weight":
                 return None
         if isinstance(b, Const):
@@ -205,6 +216,9 @@ class Interp:
                 return
             if attr in ("left", "right", "_child_"):
                 b.f[attr] = v
+                return
+            if attr == "_eval_parent_":
+                b.eparent = v
                 return
             raise AnalysisError(f"surgery: store to {attr} not modelled")
         if isinstance(b, NodeRef):
